@@ -192,8 +192,8 @@ def rule_r1(ctx, repo, runs):
         runs[sc.tag] = run
         ctx.count("scenarios")
         if len(run.rets) != 1:
-            ctx.check(None if run.rets else False, "R1", sc.tag + ":accepted", "",
-                      "fit has %d normal returns for a valid configuration (expected one)" % len(run.rets), loc)
+            ctx.undecided("R1", sc.tag + ":accepted", "fit has %d interpretable normal returns for a valid configuration (expected one)"
+                          % len(run.rets), loc)
             continue
         envs = feasible(grid(sc), run.facts)
         got = as_lin_val(run.selfv.attrs.get("window_length_"))
